@@ -279,6 +279,21 @@ class Analysis:
             raise Imprecision("constructor does not store a single start status")
         return list(st[2])[0]
 
+    def startup_runs(self):
+        """event_startup on a not-yet-started evaluator whose jobs are all in an Init state, one run per concrete state
+        of the job the classification loop is looking at (trace partition on the topological-order element)"""
+        C = self.classes()
+        b = self.evaluator_fn("event_startup")
+        s0 = self.initial_start_status()
+        opaque = list(self.signal_entry_names())
+        jobs = []
+        for s in sorted(C["Init"]):
+            jobs.append((b.name, "STARTUP|%s" % self.sname(s),
+                         dict(opaque=opaque, self_init={self.L.start_field: fin(self.L.startstatus, [s0])},
+                              default_states=fin(self.L.jobstate, C["Init"]), cell_init={"topo": fin(self.L.jobstate, [s])})))
+        self.run_many(jobs)
+        return [self.runs[(b.name, "STARTUP|%s" % self.sname(s))] for s in sorted(C["Init"])]
+
     def startup_run(self):
         """event_startup on a not-yet-started evaluator whose jobs are all in an Init state"""
         C = self.classes()
@@ -413,11 +428,22 @@ class Analysis:
         C["FailedLike"] = js_pred("is_failed")
 
         def query_class(name):
+            """states s such that the query reports a job in state s: the query is analysed with every job in state s"""
             b = self.evaluator_fn(name)
-            cl = self.facts.closures_of(b.name)
-            if len(cl) != 1:
-                raise Imprecision("%s: expected exactly one filter closure" % name)
-            return self.filter_closure_class(cl[0])
+            jobs = []
+            for s in self.JS:
+                jobs.append((b.name, "Q|%s" % self.sname(s), dict(cell_init={"alljobs": fin(self.L.jobstate, [s])},
+                                                               default_states=fin(self.L.jobstate, [s]))))
+            self.run_many(jobs)
+            out = set()
+            for s in self.JS:
+                r = self.runs[(b.name, "Q|%s" % self.sname(s))]
+                rv = r.ret
+                if rv is None or rv[0] != "coll":
+                    raise Imprecision("%s: result is not a collection built from the jobs (%s)" % (name, str(rv)[:80]))
+                if rv[1] is not None:
+                    out.add(s)
+            return frozenset(out)
         C["Failed"] = query_class("query_failed")
         C["UpstreamFailed"] = query_class("query_upstream_failed")
         C["RunningQ"] = query_class("query_jobs_running")
@@ -446,11 +472,12 @@ class Analysis:
             if b.vis != "Public":
                 continue
             short = b.name.split("::")[-1]
-            run = self.startup_run() if short == "event_startup" else self.joined_run(b)
-            for w in run.by_kind("write_state"):
-                if (w["fn"], w["bb"]) in covered:
-                    continue   # the partitioned runs describe this site exactly
-                T.append(dict(ctx=("api", short, None), run=run, w=w))
+            rl = self.startup_runs() if short == "event_startup" else [self.joined_run(b)]
+            for run in rl:
+                for w in run.by_kind("write_state"):
+                    if (w["fn"], w["bb"]) in covered:
+                        continue   # the partitioned runs describe this site exactly
+                    T.append(dict(ctx=("api", short, None), run=run, w=w))
         self.__dict__["T"] = T
         return T
 
